@@ -20,6 +20,9 @@ pub const EMPTY_VALUE: () = ();
 /// Values can be of different subtypes that are the variants of this enum.
 #[derive(Clone, Debug, PartialEq)]
 #[cfg_attr(feature = "serde", derive(serde::Serialize, serde::Deserialize))]
+// The int and float types are `Serialize` and `Deserialize` through the bounds on `EvalexprNumericTypes`,
+// the derived bounds on the marker type itself are not needed.
+#[cfg_attr(feature = "serde", serde(bound = ""))]
 pub enum Value<NumericTypes: EvalexprNumericTypes = DefaultNumericTypes> {
     /// A string value.
     String(String),
